@@ -709,6 +709,7 @@ func runFED09(r *core.Run) {
 			for _, sl := range perClient[c] {
 				ex, _ := e.execOne(shared, sl.op, func(rc *resolve.Context) {
 					rc.ExecutionOptions.DisableSubgraphRequestDeduplication = noDedup
+					rc.ExecutionOptions.IncludeQueryPlanInResponse = true // to classify cyclic plans below
 				})
 				sl.x = ex
 			}
@@ -754,7 +755,13 @@ func runFED09(r *core.Run) {
 				got = e.summarize(sl.x, nil)
 			}
 			if got.data != tw.data || got.hasErr != tw.hasErr || strings.HasPrefix(got.body, "ERR:") != strings.HasPrefix(tw.body, "ERR:") {
-				r.Fail(prop, "history-changes-response", sharedKeyShape(sl.op.Query), "request %d of a history on a shared engine (multiFetch=%v scheduleFetches=%v minify=%v dedupOff=%v smallCache=%v) differs from the same request alone on a fresh default engine\noperation: %s vars=%s\nshared: %s\nfresh:  %s\n%s",
+				shape := sharedKeyShape(sl.op.Query)
+				if shape == "" && planHasDependencyCycle(got.body) {
+					// known planner finding (DESIGN.md 12.3): with a cyclic plan the answer depends on
+					// the schedule, on any engine
+					shape = "-plan-with-cyclic-fetch-dependencies"
+				}
+				r.Fail(prop, "history-changes-response", shape, "request %d of a history on a shared engine (multiFetch=%v scheduleFetches=%v minify=%v dedupOff=%v smallCache=%v) differs from the same request alone on a fresh default engine\noperation: %s vars=%s\nshared: %s\nfresh:  %s\n%s",
 					sl.seq, o.multiFetch, o.scheduleFetches, minify, noDedup, smallCache, sl.op.Query, sl.op.Vars, got.body, tw.body, e.describe())
 			}
 		}
